@@ -131,6 +131,25 @@ pub fn run_slice(input: &[u8], k: u8, invert: bool, after: usize, before: usize,
 #[cfg(kani)]
 mod proofs {
     use super::*;
+    /// smaller variants: 3 input bytes, fixed flags
+    #[kani::proof]
+    #[kani::unwind(6)]
+    fn slice_search_len3_noinvert() {
+        let b: [u8; 3] = kani::any();
+        let n: usize = kani::any();
+        kani::assume(n <= 3);
+        assert!(run_slice(&b[..n], b'x', false, 0, 0, MAXEV));
+    }
+    #[kani::proof]
+    #[kani::unwind(6)]
+    fn slice_search_len3_before_context_refusal() {
+        let b: [u8; 3] = kani::any();
+        let n: usize = kani::any();
+        kani::assume(n <= 3);
+        let r: usize = kani::any();
+        kani::assume(r <= 2);
+        assert!(run_slice(&b[..n], b'x', false, 0, 1, r));
+    }
     #[kani::proof]
     #[kani::unwind(7)]
     fn slice_search_obeys_grep_model_len4() {
